@@ -66,9 +66,12 @@ type Case struct {
 	Dest    string `json:"dest"` // renderer encoder recorder
 	// Jobs > 1: the same Generator and destination are Reset and the same
 	// helper call is made again (a second graphic with the same gradient).
-	Jobs    int        `json:"jobs,omitempty"`
-	ViewBox [4]ops.F32 `json:"viewbox"`
-	Rect    [4]int     `json:"rect"`
+	Jobs int `json:"jobs,omitempty"`
+	// ErrFirst: a helper call that must be rejected (60 stops) is made just before the call under
+	// test, on the same Generator, with no Reset in between.
+	ErrFirst bool       `json:"err_first,omitempty"`
+	ViewBox  [4]ops.F32 `json:"viewbox"`
+	Rect     [4]int     `json:"rect"`
 }
 
 func arg(c Case, i int) float32 {
@@ -189,6 +192,21 @@ func oneJob(c Case, gp *generate.Generator, hook *ops.Recorder, enc *encode.Enco
 	defer func() { *gp = g }()
 	g.Reset(gen.VB(vb), ivg.DefaultPalette)
 	prior(&g, c)
+	if c.ErrFirst {
+		many := make([]generate.GradientStop, 60)
+		for i := range many {
+			many[i] = generate.GradientStop{Offset: float32(i) / 60, Color: color.RGBA{uint8(i), 0, 0, 0xff}}
+		}
+		n0 := len(hook.Ops)
+		if err := g.SetCircularGradient(1, 2, 3, 4, generate.GradientSpreadReflect, many); err == nil {
+			return harness.Violatef("c19/no-error", "SetCircularGradient with 60 stops returned no error")
+		}
+		for _, o := range hook.Ops[n0:] {
+			if o.K == ops.SetCReg || o.K == ops.SetNReg {
+				return harness.Violatef("c19/write-before-error", "the rejected 60-stop call wrote a register (%v)", o.K)
+			}
+		}
+	}
 	before := len(hook.Ops)
 	cs0, ns0 := g.CSel()&63, g.NSel()&63
 	if cs0 != c.PriorCSel&63 || ns0 != c.PriorNSel&63 {
@@ -535,6 +553,10 @@ func genCase(t *rapid.T) (Case, []string) {
 	x0, y0 := rapid.IntRange(-64, 64).Draw(t, "vx"), rapid.IntRange(-64, 64).Draw(t, "vy")
 	c.ViewBox = [4]ops.F32{ops.F32(x0), ops.F32(y0), ops.F32(x0 + w), ops.F32(y0 + h)}
 	c.Rect = [4]int{rapid.IntRange(0, 9).Draw(t, "rx"), rapid.IntRange(0, 9).Draw(t, "ry"), w << uint(rapid.IntRange(0, 3).Draw(t, "kx")), h << uint(rapid.IntRange(0, 3).Draw(t, "ky"))}
+	if rapid.IntRange(0, 4).Draw(t, "errfirst") == 0 {
+		c.ErrFirst = true
+		labels = append(labels, "a-rejected-helper-call-just-before")
+	}
 	if rapid.IntRange(0, 3).Draw(t, "jobs") == 0 {
 		c.Jobs = 2
 		labels = append(labels, "same-helper-call-again-after-Reset")
